@@ -21,7 +21,7 @@ from inline_snapshot import snapshot
 __all__ = [
     "Color", "Perm", "Outer", "DC", "DCD", "DCN", "AT", "PM", "NT", "NTD", "NoCode", "NoCodeBox", "BadCopy", "RaisesEq",
     "Unorderable", "REC", "rec", "ok", "mark", "check_eq", "check_le", "check_ge", "check_in", "G", "set_g",
-    "Is", "outsource", "snapshot", "defaultdict", "ident", "Plain", "EvilEq", "snapshot_alias", "NP", "NPBool", "check_example", "EXAMPLE_SRC", "KW", "Tags", "FTags", "rec_value", "in_thread", "BadList", "ATP", "DCI", "IPerm", "NoCodeStmt",
+    "Is", "outsource", "snapshot", "defaultdict", "ident", "Plain", "EvilEq", "snapshot_alias", "NP", "NPBool", "check_example", "EXAMPLE_SRC", "KW", "Tags", "FTags", "rec_value", "in_thread", "BadList", "ATP", "DCI", "IPerm", "NoCodeStmt", "DCA", "DCB",
 ]
 
 defaultdict = collections.defaultdict
@@ -80,6 +80,20 @@ class KW:
     r: typing.Any = 3
     t: typing.Any = dataclasses.field(default_factory=list)
     n: typing.Any
+
+
+@dataclasses.dataclass
+class DCA:
+    """two classes with the same fields: DCA(v=5) != DCB(v=5)"""
+
+    v: typing.Any
+    w: typing.Any = 0
+
+
+@dataclasses.dataclass
+class DCB:
+    v: typing.Any
+    w: typing.Any = 0
 
 
 @dataclasses.dataclass
